@@ -352,9 +352,15 @@ def run_shard(ctx):
             chunk, text, want = chunks[i % len(chunks)]
             pad = rng.choice([1, 2, 5])
             fill, align = rng.choice(["", "", "*", "."]), rng.choice("<>^")
+            fch = fill or " "
+            if rng.random() < 0.2:
+                # the text happens to consist of the very character the field is filled with ("**" in a field of '*',
+                # blanks in a field of blanks): which cells are text and which are filler still shows in the colours
+                text = fch * rng.choice([1, 2, 3])
+                chunk = chunk.clone(text)
+                ctx.count("formatted_chunks_made_of_the_fill_character")
             spec = "%s%s%d" % (fill, align, len(text) + pad)
             left = {"<": 0, ">": pad, "^": pad // 2}[align]
-            fch = fill or " "
             fmodel = [(fch, sgr.DEFAULT)] * left + [(c, want) for c in text] + [(fch, sgr.DEFAULT)] * (pad - left)
             ctx.count("single_chunks_formatted_to_a_width")
             try:
@@ -389,6 +395,25 @@ def run_shard(ctx):
                                   {"out": str(mixed)[:120], "how": how}, case)
             except sgr.SgrError as err:
                 ctx.violation("malformed-or-bleeding-sequence", {"err": str(err), "how": how}, case)
+        if len(chunks) <= 5:
+            # a text appended to itself (the documented 't += t', also as the only part of a list); its first and its
+            # last chunk have one look, as a frame around a value has
+            first, mid = chunks[0], chunks[1]
+            frame = CHText(first[0], mid[0], first[0].clone("]") if i % 3 else first[0])
+            fmodel2 = [(c, first[2]) for c in first[1]] + [(c, mid[2]) for c in mid[1]] + \
+                [(c, first[2]) for c in ("]" if i % 3 else first[1])]
+            if i % 2:
+                frame += frame
+            else:
+                frame += [frame]
+            ctx.count("texts_appended_to_themselves")
+            try:
+                if sgr.cells(str(frame)) != fmodel2 + fmodel2 or frame.plain_text() != "".join(c for c, _ in fmodel2) * 2 \
+                        or len(frame) != 2 * len(fmodel2):
+                    ctx.violation("text-appended-to-itself-shows-something-else",
+                                  {"out": str(frame)[:160], "expected_text": "".join(c for c, _ in fmodel2) * 2}, case)
+            except sgr.SgrError as err:
+                ctx.violation("malformed-or-bleeding-sequence", {"err": str(err), "self_append": True}, case)
         if i < 30 and len(ctx.samples) < 2:
             ctx.sample({"parts": parts, "rendered": str(res)})
 
